@@ -406,6 +406,12 @@ pub fn run(cfg: &Config) -> i32 {
             ("REJT-no-slashes@79", "REJT AC01", None, Some(false)),
             ("/REJT/+/RETN/@79", "/REJT/AC01\n/RETN/AC04", Some(true), None),
             ("/RETN/+/REJT/@79", "/RETN/AC04\n/REJT/AC01", None, Some(true)),
+            // the word quoted inside the first line (not judged against the word list, but by symmetry below)
+            ("/RETN/@79-mid-first-line", "YOUR QUERY RE CODE /RETN/ RECEIVED", Some(false), None),
+            ("/REJT/@79-mid-first-line", "YOUR QUERY RE CODE /REJT/ RECEIVED", None, Some(false)),
+            ("/REJT/-then-/RETN/-same-line@79", "/REJT/AC01 NOT TO BE TREATED AS /RETN/", Some(true), None),
+            ("/RETN/-then-/REJT/-same-line@79", "/RETN/AC04 NOT TO BE TREATED AS /REJT/", None, Some(true)),
+            ("/RETN/@79-end-of-first-line", "SEE /RETN/", Some(false), None),
         ];
         let t199 = par_for(cfg, variants.len() as u64, |i, l| {
             let (lab, f79, exp_rej, exp_ret) = &variants[i as usize];
@@ -424,6 +430,16 @@ pub fn run(cfg: &Config) -> i32 {
                         && *e != rt
                     {
                         v(l, "MT199", if *e { "return-code-not-classified" } else { "classified-return-without-code" }, lab, format!("MT199: is_return_message={rt} with field 79 {:?}", f79), &case);
+                    }
+                    // symmetry: the two predicates differ by their code word only, so the same narrative with the
+                    // two words exchanged must be classified the other way round (whatever position counts)
+                    let swapped = f79.replace("REJT", "\u{1}").replace("RETN", "REJT").replace('\u{1}', "RETN");
+                    let text2 = text.replace(&format!(":79:{f79}"), &format!(":79:{swapped}"));
+                    if let Ok(Ok(m2)) = guard(|| swift_mt_message::SwiftParser::parse::<swift_mt_message::messages::MT199>(&text2)) {
+                        let (rj2, rt2) = (m2.fields.is_reject_message(), m2.fields.is_return_message());
+                        if rj != rt2 || rt != rj2 {
+                            v(l, "MT199", "reject-and-return-read-differently", lab, format!("MT199: field 79 {f79:?} gives reject={rj} return={rt}; with the two code words exchanged ({swapped:?}) reject={rj2} return={rt2}"), &case);
+                        }
                     }
                 }
                 _ => l.eval("MT199", "not-parseable", false, 0),
